@@ -189,6 +189,19 @@ def sql_parameterization_module(style: int, nparams: int, split: int, var: int) 
     return fin(sqlfam.check(style, nparams, split, 0, var) is None)
 
 
+def sql_parameterization_carried(style: int, carry: int, var: int, scope: int) -> bool:
+    """The same family with the injected value travelling through an intermediate variable (`who = name` /
+    `who = name + '!'`) that is READ AGAIN after the query (directly, or inside a comprehension): the rewritten program
+    prints the same rows and the same value of that variable - the variable is not emptied, removed or left unbound.
+    pre: 1 <= carry <= 2
+    post: _
+    """
+    from harness import sqlfam
+    from vlib.core import fin
+
+    return fin(sqlfam.check(style, 1, 0, scope, var, carry) is None)
+
+
 def sast_refactorings(which: int, style: int, args: int, decoy: int, layout: int) -> bool:
     """fix-deprecated-logging-warn through the detector-driven family (harness/hardsast.py): `logging.warn` under 4
     import styles x argument lists x surroundings x layouts becomes `warning` with every argument kept in order -
@@ -257,6 +270,7 @@ def warmup():
     file_resource_leak(1, 0, 1, 2, 1)
     sql_parameterization(2, 2, 1, 1)
     sql_parameterization_module(0, 1, 0, 0)
+    sql_parameterization_carried(1, 2, 1, 1)
     sast_refactorings(0, 1, 1, 1, 1)
     lock_with_statement(1, 1, 1, 1, True)
     hasattr_call(3, 2, 1, 1)
@@ -300,6 +314,7 @@ SPEC = {
         __import__("vlib.main", fromlist=["Xh"]).Xh("file_resource_leak", 400, 800),
         __import__("vlib.main", fromlist=["Xh"]).Xh("sql_parameterization", 500, 900),
         __import__("vlib.main", fromlist=["Xh"]).Xh("sql_parameterization_module", 500, 900),
+        __import__("vlib.main", fromlist=["Xh"]).Xh("sql_parameterization_carried", 300, 600),
         __import__("vlib.main", fromlist=["Xh"]).Xh("sast_refactorings", 300, 600),
         __import__("vlib.main", fromlist=["Xh"]).Xh("lock_with_statement", 300, 600),
         __import__("vlib.main", fromlist=["Xh"]).Xh("hasattr_call", 300, 600),
